@@ -421,9 +421,13 @@ def self_check(models, trw, n=300, seed=1):
                            for _ in range(7)]
                           + [sc["contact_point"]])
             real = mod.model_func(xs.copy(), **sc)
+            scale = max(float(np.max(np.abs(real))), 1e-300)
             for xv, rv in zip(xs, real):
                 mine = eval_ir(tr, sc, float(xv))
-                w = max(w, ulps(float(rv), mine))
+                # vectorised and scalar pow differ in the last bits, and the
+                # layered model cancels (E_S - E_L): relative to the largest
+                # force of the sample, in units of 2^-52
+                w = max(w, abs(float(rv) - mine) / scale / 2.220446049250313e-16)
         worst[key] = w
     import numpy as np
     from nanite.model import residuals
